@@ -916,6 +916,33 @@ def foster_condition(ctx):
                         {"function": fname, "flag": flag, "current": nm}, detail={"function": fname, "flag": flag, "current": nm, "fostered": fostered})
 
 
+# ---------------------------------------------------------------------------- C01.15 adoption agency loop bounds
+def adoption_loops(ctx):
+    """The adoption agency algorithm runs its outer loop at most 8 times; its inner loop is *not* bounded -- it walks down to
+    the formatting element, and from the fourth node on removes the nodes it passes from the list of active formatting
+    elements (and from the stack when they are not in the list)."""
+    r = ctx.r
+    f = ctx.repo.func(PARSER_REL, "InBodyPhase.endTagFormatting")
+    whiles = [n for n in ast.walk(f.node) if isinstance(n, ast.While)]
+    counters = {}
+    for w in whiles:
+        for c in ast.walk(w.test):
+            if isinstance(c, ast.Compare) and isinstance(c.left, ast.Name) and "ounter" in c.left.id and isinstance(c.comparators[0], ast.Constant):
+                counters[c.left.id] = (w, type(c.ops[0]).__name__, c.comparators[0].value)
+    outer = [(k, v) for k, v in counters.items() if "outer" in k.lower()]
+    inner = [(k, v) for k, v in counters.items() if "inner" in k.lower()]
+    r.idiom("C01.15", len(outer) == 1 and outer[0][1][1:] == ("Lt", 8), "adoption-outer-loop-8", f.where,
+            "the adoption agency's outer loop bound was not recognised: %s" % outer,
+            wrong=[(len(outer) == 1 and outer[0][1][1] == "Lt" and outer[0][1][2] != 8,
+                    "the adoption agency's outer loop runs at most %s times; the standard says 8" % (outer[0][1][2] if outer else "?"))])
+    r.check("C01.15", not inner, "adoption-inner-loop-unbounded", "%s:%d" % (PARSER_REL, inner[0][1][0].lineno if inner else f.node.lineno),
+            "the adoption agency's inner loop stops after %s iterations (`while %s`); the standard's inner loop continues down to the "
+            "formatting element and, from the fourth node on, removes the nodes it passes from the list of active formatting "
+            "elements: with four or more formatting elements between the closed one and the furthest block the extra ones stay in "
+            "the list and on the stack" % (inner[0][1][2] if inner else "?", norm(inner[0][1][0].test) if inner else ""),
+            detail={"inner_loop_test": norm(inner[0][1][0].test) if inner else None})
+
+
 # ---------------------------------------------------------------------------- C01.10 quirks mode
 QUIRKS_EXACT = {"-//w3o//dtd w3 html strict 3.0//en//", "-/w3c/dtd html 4.0 transitional/en", "html"}
 QUIRKS_SYSTEM = "http://www.ibm.com/data/dtd/v11/ibmxhtml1-transitional.dtd"
@@ -1281,6 +1308,7 @@ def run(ctx):
     r.rule("C01.10", "quirks / limited-quirks decision equals the standard's for representative DOCTYPE tokens", floor=500)
     r.rule("C01.11", "a delegation whose result is discarded cannot lose a reprocess request", floor=50)
     r.rule("C01.13", "formatting-list scans stop at markers; stale formatting element removed from both lists; foreign breakout pops to an HTML element or integration point", floor=10)
+    r.rule("C01.15", "adoption agency: outer loop bounded by 8, inner loop not bounded by a counter", floor=2)
     r.rule("C01.14", "foster parenting is applied exactly when it is enabled and the current node is table/tbody/tfoot/thead/tr", floor=25)
     r.rule("C01.12", "insertion-mode transitions: each switch is one the standard's steps for that mode and token make; each required switch is reachable", floor=120)
     r.rule("C01.5", "evaluated element tables equal the transcribed WHATWG sets (entries marked either-way excepted)", floor=300)
@@ -1297,6 +1325,7 @@ def run(ctx):
     return_propagation(ctx)
     formatting_rules(ctx)
     foster_condition(ctx)
+    adoption_loops(ctx)
     from . import modes
     modes.run(ctx, "C01.12")
     standard_tables(ctx)
